@@ -1,7 +1,7 @@
 (* Proofs/C08Facts.v — facts about the formatter model: per-token renderings, escapes, named formats. *)
 From Coq Require Import ZArith List Bool Lia ZifyBool.
 From PV Require Import Lib.PyBase Lib.Reflect Spec.Cal Proofs.CalFacts Proofs.C15Facts Gen.DateGetters.
-From PV Require Import Model.FormatterBase Gen.FormatterTables Gen.LocaleTables Model.Formatter Model.FormatterParse Proofs.C08Decimal.
+From PV Require Import Gen.RustConstants Model.FormatterBase Gen.FormatterTables Gen.LocaleTables Model.Formatter Model.FormatterParse Proofs.C08Decimal.
 Import ListNotations.
 Open Scope Z_scope.
 Ltac Zify.zify_post_hook ::= Z.to_euclidean_division_equations.
@@ -286,12 +286,68 @@ Definition bs_fmt : str := [89;89;89;89;92;84;72;72].     (* YYYY\THH *)
 Lemma backslash_escape_roundtrip_fails : roundtrip false [101;110] sample_dt bs_fmt = Raise E_ValueError.
 Proof. vm_compute. reflexivity. Qed.
 
-(* day 60 of 2020 (Feb 29): the Python parser accepts it, the Rust one rejects the last day of a month *)
+(* ------------------------------------------------------------------ day of year (DDDD / DDD) through pendulum.parse("YYYY-DDD")
+   finding rs-ordinal-month-end repaired: the compiled parser's ordinal conversion now equals the calendar on every day of
+   every year, the last day of each month included, and so agrees with the pure-Python one *)
+Definition doy_rs_ok (l : bool) (n : Z) : bool :=
+  match rs_ord_loop 13 (tidx2 RS_MONTHS_OFFSETS (Z.b2z l)) 1 n with
+  | Some (m, d) => let '(m', d') := md_of_yday_l l n in
+                   (m =? m') && (d =? d') && (1 <=? m) && (m <=? 12) && (1 <=? d) && (d <=? dim_l l m)
+  | None => false
+  end.
+Lemma doy_rs_ok_f : forall_range (doy_rs_ok false) 1 365 = true. Proof. vm_compute. reflexivity. Qed.
+Lemma doy_rs_ok_t : forall_range (doy_rs_ok true) 1 366 = true. Proof. vm_compute. reflexivity. Qed.
+
+Lemma doy_to_md_rs_spec y doy : 1 <= doy <= days_in_year y -> doy_to_md_rs y doy = Ok (md_of_yday y doy).
+Proof.
+  intros H. unfold doy_to_md_rs. replace ((1 <=? doy) && (doy <=? days_in_year y)) with true by lia.
+  assert (E : doy_rs_ok (is_leap y) doy = true).
+  { unfold days_in_year in H.
+    destruct (is_leap y); [apply (forall_range_spec _ _ _ doy_rs_ok_t) | apply (forall_range_spec _ _ _ doy_rs_ok_f)]; lia. }
+  unfold doy_rs_ok in E. unfold md_of_yday.
+  destruct (rs_ord_loop 13 (tidx2 RS_MONTHS_OFFSETS (Z.b2z (is_leap y))) 1 doy) as [[m d]|]; [|discriminate].
+  destruct (md_of_yday_l (is_leap y) doy) as [m' d'].
+  assert (V : valid_dateb y m d = true) by (apply valid_dateb_true; unfold dim; lia).
+  rewrite V. assert (m = m') by lia. assert (d = d') by lia. subst. reflexivity.
+Qed.
+
+(* the two backends' day-of-year step of _check_parsed is the same function (every year, every doy, rejections included) *)
+Lemma doy_to_md_backends_agree y doy : doy_to_md_rs y doy = doy_to_md_py y doy.
+Proof.
+  destruct ((1 <=? doy) && (doy <=? days_in_year y)) eqn:C.
+  - rewrite doy_to_md_rs_spec by lia. unfold doy_to_md_py. rewrite C. reflexivity.
+  - unfold doy_to_md_rs, doy_to_md_py. rewrite C. reflexivity.
+Qed.
+
+Lemma check_parsed_backend_independent p now : check_parsed true p now = check_parsed false p now.
+Proof.
+  unfold check_parsed.
+  match goal with |- bind ?a ?f = bind ?a ?g => destruct a as [[[vy vm] vd]|e] end; cbn [bind]; try reflexivity.
+  destruct (p_doy p) as [doy|]; [|reflexivity].
+  destruct ((1000 <=? match vy with Some y => y | None => n_year now end) &&
+            (match vy with Some y => y | None => n_year now end <=? 9999) && (0 <=? doy)); [|reflexivity].
+  cbv iota. rewrite doy_to_md_backends_agree. reflexivity.
+Qed.
+
+Lemma parse_backend_independent zones lname now s fmt : parse true zones lname now s fmt = parse false zones lname now s fmt.
+Proof.
+  unfold parse. cbv zeta.
+  destruct (forallb _ _); [reflexivity|].
+  destruct (find_locale lname) as [loc|]; [|reflexivity].
+  destruct (assemble loc _) as [els|e]; cbn [bind]; [|reflexivity].
+  destruct (has_dup _); [reflexivity|].
+  destruct (negb _); [reflexivity|].
+  destruct (sub_matches _ _ _) as [ms|]; [|reflexivity].
+  unfold parse_finish. destruct (fold_matches _ _ _ _ _) as [p|e]; cbn [bind]; [|reflexivity].
+  apply check_parsed_backend_independent.
+Qed.
+
+(* day 60 of 2020 (Feb 29), the former witness: both backends now return the date *)
 Definition doy_fmt : str := [89;89;89;89;45;68;68;68;68].
 Definition leap_day : pdt := mkpdt 2020 2 29 0 0 0 0 true 0 [] [].
 Lemma ordinal_month_end_backends :
   roundtrip false [101;110] leap_day doy_fmt = Ok (2020, 2, 29, 0, 0, 0, 0, None)
-  /\ roundtrip true [101;110] leap_day doy_fmt = Raise E_ParserError.
+  /\ roundtrip true [101;110] leap_day doy_fmt = Ok (2020, 2, 29, 0, 0, 0, 0, None).
 Proof. split; vm_compute; reflexivity. Qed.
 
 (* ------------------------------------------------------------------ escapes *)
